@@ -24,7 +24,7 @@ The breakage must need something SPECIFIC to manifest — a particular interleav
 
 Deliver, inside `{wt}`:
   1. the source change itself, left applied in the worktree (uncommitted is fine);
-  2. a demonstration: a new integration test file (e.g. `{wt}/stun-agent/tests/seed_demo.rs` or `{wt}/stun-rs/tests/seed_demo.rs`, using only the public API of the crates where possible; if private access is indispensable, a `#[cfg(test)]` unit test module appended to a source file) that FAILS with your change and PASSES on the original code. Verify both: run it with the change, then `git stash` the source change (keep the test), run it again to see it pass, then `git stash pop`.
+  2. a demonstration: a new integration test file (e.g. `{wt}/stun-agent/tests/seed_demo.rs` or `{wt}/stun-rs/tests/seed_demo.rs`, using only the public API of the crates where possible; if private access is indispensable, a `#[cfg(test)]` unit test module appended to a source file) that FAILS with your change and PASSES on the original code. Verify both: run it with the change; then save the source change with `git diff -- '*.rs' ':(exclude)*/tests/*' > {wt}/change.patch`, revert it with `git apply -R {wt}/change.patch` (keep the test), run the demo again to see it pass, and re-apply with `git apply {wt}/change.patch`. Do NOT use `git stash`: the stash is shared between worktrees of the same repository and other people are working in sibling worktrees.
   3. a file `{wt}/SEED_NOTES.md` stating: which part of the property is broken, what exactly is needed for the breakage to manifest, the commands you ran and their outcomes (existing suite passes with the change; demo fails with the change and passes without).
 
 Before finishing, re-run the full existing suite one final time with your change applied and confirm that every pre-existing test passes. Do not commit anything. In your final answer, summarise the change (file, function, what it does), what is needed to trigger it, and the path of the demo test.""")
